@@ -77,7 +77,7 @@ Init == /\ \E mode \in PeerModes, tail \in AckTails, deny \in DenyReplies :
 \* packet histories are those "short of a link failure": frozen at the first report
 Hist(s, p) == IF h.failed THEN s ELSE P!AddPkt(s, p)
 \* link history: only the part since the last acknowledged transmission matters to the clause
-LinkApp(l, x) == IF x = "A" THEN <<"A">> ELSE Append(l, x)
+LinkApp(l, x) == P!LinkAppend(l, x)
 
 \* ---------------------------------------------------------------- start-up
 NegTx(o) ==
